@@ -415,15 +415,20 @@ type deadRunner struct {
 	done       chan struct{}
 	once       sync.Once
 	addr       string
+	proto      string
 }
 
-func newDeadRunner(addr string) *deadRunner {
-	d := &deadRunner{done: make(chan struct{}), addr: addr}
+func newDeadRunner(addr, proto string) *deadRunner {
+	d := &deadRunner{done: make(chan struct{}), addr: addr, proto: proto}
 	d.outR, d.outW = io.Pipe()
 	d.errR, d.errW = io.Pipe()
 	return d
 }
 func (d *deadRunner) Start(context.Context) error {
+	if d.proto == "netrpc" {
+		go fmt.Fprintf(d.outW, "1|1|unix|%s|netrpc\n", d.addr)
+		return nil
+	}
 	go fmt.Fprintf(d.outW, "1|1|unix|%s|grpc||true\n", d.addr)
 	return nil
 }
@@ -446,17 +451,26 @@ func (d *deadRunner) HostToPlugin(n, a string) (string, string, error) { return 
 func TestRace_ClientDeadMux(t *testing.T) {
 	r := rand.New(rand.NewSource(seed()))
 	var rmu sync.Mutex
-	for iter := 0; iter < 4; iter++ {
+	for iter := 0; iter < 6; iter++ {
 		dir := t.TempDir()
+		// iterations 0-3: gRPC with multiplexing; 4: gRPC without; 5: net/rpc
+		proto, mux := "grpc", iter < 4
+		if iter == 5 {
+			proto = "netrpc"
+		}
+		ps := plugin.PluginSet{"kv": &kv.GPlugin{}}
+		if proto == "netrpc" {
+			ps = plugin.PluginSet{"kv": &kv.Plugin{}}
+		}
 		cl := plugin.NewClient(&plugin.ClientConfig{
 			HandshakeConfig: plugin.HandshakeConfig{MagicCookieKey: "RC", MagicCookieValue: "rv", ProtocolVersion: 1},
-			Plugins:         plugin.PluginSet{"kv": &kv.GPlugin{}},
+			Plugins:         ps,
 			RunnerFunc: func(hclog.Logger, *exec.Cmd, string) (runner.Runner, error) {
-				return newDeadRunner(dir + "/nobody"), nil
+				return newDeadRunner(dir+"/nobody", proto), nil
 			},
-			AllowedProtocols:    []plugin.Protocol{plugin.ProtocolGRPC},
+			AllowedProtocols:    []plugin.Protocol{plugin.ProtocolGRPC, plugin.ProtocolNetRPC},
 			Logger:              hclog.NewNullLogger(),
-			GRPCBrokerMultiplex: true,
+			GRPCBrokerMultiplex: mux,
 			SkipHostEnv:         true,
 		})
 		if _, err := cl.Start(); err != nil {
@@ -469,7 +483,10 @@ func TestRace_ClientDeadMux(t *testing.T) {
 				defer wg.Done()
 				for k := 0; k < 25; k++ {
 					jitter(r, &rmu)
-					if _, err := cl.Client(); err == nil {
+					if p, err := cl.Client(); err == nil {
+						// (a protocol client handed out without an error is used)
+						p.Ping()
+						p.Dispense("kv")
 						return
 					}
 					cl.Protocol()
